@@ -85,6 +85,25 @@ def decodeFixedBody : FTy → List UInt8 → Int
   | .bool, bs => if bs.head? = some 0 then 0 else 1
   | _, _ => 0
 
+/-- `FixedLengthEncoding::encode` of `IntervalDayTime` / `IntervalMonthDayNano`: every
+component's own signed `encode()` (big-endian, sign bit flipped), copied one after the other -/
+def encodeComps : List Nat → List Int → List UInt8
+  | w :: ws, i :: is => encodeFixedBody (.int true w) i ++ encodeComps ws is
+  | _, _ => []
+
+/-- `FixedLengthEncoding::decode` of the interval types: every component's own `decode` on
+its slice -/
+def decodeComps : List Nat → List UInt8 → List Int
+  | [], _ => []
+  | w :: ws, bs => decodeFixedBody (.int true w) (bs.take w) :: decodeComps ws (bs.drop w)
+
+/-- component widths of `IntervalDayTime` (days, milliseconds) as laid out by its `encode` -/
+def ivdtWidths : List Nat := [IVDT_DAYS_END, IVDT_LEN - IVDT_MS_START]
+
+/-- component widths of `IntervalMonthDayNano` (months, days, nanoseconds) -/
+def ivmdnWidths : List Nat :=
+  [IVMDN_MONTHS_END, IVMDN_DAYS_END - IVMDN_DAYS_START, IVMDN_LEN - IVMDN_NANOS_START]
+
 /-- encoded width of the value part -/
 def fixedWidth : FTy → Nat
   | .int _ w => w
@@ -92,6 +111,7 @@ def fixedWidth : FTy → Nat
   | .bool => 1
   | .fsb n => n
   | .bin => 0
+  | .prod ws => ws.sum
 
 /-- `fixed::encode` / `encode_not_null` / `encode_boolean` / `encode_fixed_size_binary` for
 one slot: validity byte 1 followed by the (inverted when descending) value bytes; a null is
@@ -174,8 +194,10 @@ def encodeField (o : SortOptions) : FTy → FVal → List UInt8
   | .fsb n, none => encodeFixedSlot o n none
   | .fsb _, some (.bytes b) => encodeFixedSlot o b.length (some b)
   | t, none => encodeFixedSlot o (fixedWidth t) none
+  | .prod ws, some (.ints is) => encodeFixedSlot o ws.sum (some (encodeComps ws is))
   | t, some (.int i) => encodeFixedSlot o (fixedWidth t) (some (encodeFixedBody t i))
   | _, some (.bytes _) => []
+  | _, some (.ints _) => []
 
 /-- `row_lengths` contribution of one value -/
 def fieldLength : FTy → FVal → Nat
@@ -197,6 +219,13 @@ def decodeField (o : SortOptions) (t : FTy) (row : List UInt8) : Option (FVal ×
     | b :: rest =>
       if rest.length < n then none else
       some (if b = validByte then some (.bytes (invIf o.descending (rest.take n))) else none, rest.drop n)
+  | .prod ws =>
+    match row with
+    | [] => none
+    | b :: rest =>
+      if rest.length < ws.sum then none else
+      some (if b = validByte then some (.ints (decodeComps ws (invIf o.descending (rest.take ws.sum)))) else none,
+        rest.drop ws.sum)
   | t =>
     match row with
     | [] => none
@@ -247,6 +276,8 @@ inductive Val
   | null
   | int (i : Int)
   | bytes (b : List UInt8)
+  /-- interval values: the signed components -/
+  | ints (is : List Int)
   | tuple (vs : List Val)
   | list (vs : List Val)
   /-- a union value: field position and the value of that field -/
@@ -261,6 +292,7 @@ def Val.toFVal : Val → Option FVal
   | .null => some none
   | .int i => some (some (.int i))
   | .bytes b => some (some (.bytes b))
+  | .ints is => some (some (.ints is))
   | _ => none
 
 mutual
